@@ -309,6 +309,7 @@ def online_gap(ix, rep, mon):
         rep.fail('R-GAPLOOP', f.module.rel, sym, 'online:gap', 'the value checked is `%s`, not timestamp - previous_time' % s, c.lineno)
     # previous_time / update_counter updated on every normal path, after the check
     cfg = flow.CFG(f.node)
+    dom_ = cfg.dominators()
     for attr, want in (('previous_time', tparam), ('update_counter', None)):
         nodes = [n for n in cfg.nodes() if isinstance(cfg.stmt[n], ast.Assign) and E.self_loc(cfg.stmt[n].targets[0]) == attr]
         aug = [n for n in cfg.nodes() if isinstance(cfg.stmt[n], ast.AugAssign) and E.self_loc(cfg.stmt[n].target) == attr]
@@ -334,7 +335,14 @@ def online_gap(ix, rep, mon):
             okv = all(stored(n) == want for n in nodes)
         else:
             okv = all(stored(n).replace(' ', '') in ('self.update_counter+1', '1+self.update_counter') for n in nodes)
-        after = all(cfg.stmt[n].lineno > c.lineno for n in nodes)
+        # "after the check": the statement that holds the check dominates the store and is not the store itself (positions in the text are
+        # meaningless once a helper has been inlined: every inlined statement carries the line of the call)
+        chk_stmt = guard if guard is not None else next((cfg.stmt[n] for n in cfg.nodes() if cfg.stmt[n] is not None and any(x is c for x in ast.walk(cfg.stmt[n]))), None)
+        chk = cfg.node(chk_stmt) if chk_stmt is not None else None
+        if chk is not None:
+            after = all(chk in dom_[n] and n != chk for n in nodes)
+        else:
+            after = all(cfg.stmt[n].lineno > c.lineno for n in nodes)
         if nodes and cfg.exit not in seen and okv and after:
             rep.ok('R-GAPLOOP', f.module.rel, sym, 'online:%s' % attr, 'updated on every normal path after the check', cfg.stmt[nodes[0]].lineno)
         else:
